@@ -8,7 +8,7 @@ import bfsprops
 import pathlib_go as pg
 
 ASSUMPTIONS = [
-    "p is a non-directory path whose parent directories predate the transaction (as the property says); ForceBackup must have succeeded",
+    "p is a non-directory path - at the ForceBackup moment and when the transaction began (orig_not_dir_cond of the theorem) - whose parent directories predate the transaction; ForceBackup must have succeeded",
 ]
 
 
@@ -27,6 +27,11 @@ def oracle(case, a):
     init = {bfsprops.fields(l)["path"]: worldrun.strip_for_c01(l) for l in worldrun.region(a["S"].get("0", []), case.cfg, "base")}
     final = {bfsprops.fields(l)["path"]: worldrun.strip_for_c01(l) for l in worldrun.region(a["S"].get("final", []), case.cfg, "base")}
     if snap.get(wp) is not None and bfsprops.fields(snap[wp])["kind"] == "D":
+        return None
+    if init.get(wp) is not None and bfsprops.fields(init[wp])["kind"] == "D":
+        # p was a directory when the transaction began (and has been removed or replaced since):
+        # not "a non-directory path p" in the property's sense - re-baselining it to "absent" or to
+        # a file is incompatible with rolling its former content back "as usual"
         return None
     if final.get(wp) != snap.get(wp):
         return "after Rollback %s is %s, at the ForceBackup moment it was %s" % (enc(wp), final.get(wp), snap.get(wp))
@@ -79,7 +84,8 @@ def gen_cases(tier, rnd, n):
         pos = rnd.randint(0, len(body))
         pre = body[:pos]
         if rnd.random() < 0.6:
-            pre = pre + [rnd.choice([("create", vp, "Bforced"), ("remove", vp), ("chmod", vp, "640"), ("openwrite", vp, 0x441, "644", "Bmore")])]
+            pre = pre + [rnd.choice([("create", vp, "Bforced"), ("remove", vp), ("chmod", vp, "640"), ("openwrite", vp, 0x441, "644", "Bmore"),
+                                     ("chown", vp, 1001, 1000), ("lchown", vp, 1000, 1001), ("chown", vp, 1001, 1000)])]
         rest = body[pos:]
         if rnd.random() < 0.6:
             rest = rest + [rnd.choice([("create", vp, "Blater"), ("remove", vp), ("chown", vp, 1000, 1001)])]
@@ -99,8 +105,23 @@ def gen_cases(tier, rnd, n):
                 if x[0] != "L" or not x[1].startswith(pfx or b"/") or pg.within(cfg["q"], x[1]):
                     continue
                 tgt = x[5] if x[5].startswith(b"/") else pg.gojoin(pg.godir(x[1]), x[5])
-                if pg.goclean(tgt) == par and not pg.within(x[1], wp):
+                # the lexical computation of where the link leads is only right if the link's own
+                # parent directories are real directories (not links themselves)
+                dirs_ = {y[1] for y in inits if y[0] == "D"}
+                if pg.goclean(tgt) == par and not pg.within(x[1], wp) and all(a in dirs_ for a in t2.parents(x[1])):
                     via.append(x[1])
+            # ... and only if no earlier operation of the history names the link or anything on the
+            # way to it (it might have removed or replaced it)
+            def untouched(link_world):
+                lv = bfsprops.view_of_world(cfg, link_world)
+                for o in pre:
+                    for a in o[1:]:
+                        if isinstance(a, bytes):
+                            ca = pg.goclean(b"/" + a)
+                            if ca == lv or pg.within(ca, lv) or pg.within(lv, ca):
+                                return False
+                return True
+            via = [v for v in via if untouched(v)]
             if via:
                 fp = bfsprops.view_of_world(cfg, rnd.choice(via)) + b"/" + wp.rsplit(b"/", 1)[1]
         new_ops = [ops[0]] + pre + [("forcebackup", fp), ("dump",)] + rest + [("dump",), ("rollback",)]
